@@ -60,6 +60,19 @@ class DelayedWB(Slice):
                 findings.append(("violation", f"{k}: reference {str(a[k])[:200]} implementation {str(b[k])[:200]}"))
                 break
         cl = set()
+        # the reference machine the THEOREMS are stated against (Proofs/FlagOffDwb.v dwb_run, extracted) must be the
+        # reference this check uses
+        r = model.call([81, spec, len(a["ret"]) + 1])
+        from common import norm_model_state
+        ms_ = norm_model_state(r[1][:8])
+        if r[0] != 0:
+            findings.append(("disagreement", f"Coq dwb_run does not finish (code {r[0]}) where the Python reference does"))
+        elif [x for x in r[2]] != [pc for pc, _ in a["ret"]]:
+            findings.append(("disagreement", f"Coq dwb_run retires {str(r[2])[:160]}, Python reference {[pc for pc, _ in a['ret']][:40]}"))
+        elif (ms_[4] or [None])[0] != a["exit"]:
+            findings.append(("disagreement", f"Coq dwb_run exit code {ms_[4]}, Python reference {a['exit']}"))
+        elif ms_[1] != a["regs"] or ms_[3] != [ord(c) for c in a["out"]] or ms_[2] != a["mem"]:
+            findings.append(("disagreement", f"Coq dwb_run final state differs from the Python reference: regs {ms_[1] == a['regs']}, out {ms_[3] == [ord(c) for c in a['out']]}, mem {ms_[2] == a['mem']}"))
         s = impl_trace(spec, 400)
         if s[-1][0] == 0 and s[-2][1] != o[1]:
             cl.add("stale-read")
